@@ -169,6 +169,14 @@ Connected == Final => \A j \in 1..Len(clusters) : Cardinality(Comps(clusters[j].
 HasRegion == \A j \in 1..Len(clusters) : clusters[j].reg >= 0
 \* the seed loop terminates: every iteration removes at least the seed (needs s \in mask)
 SeedProgress == [][pc = "seed" /\ pc' = "seed" => Cardinality(remaining') < Cardinality(remaining)]_vars
+\* every LocalizeStep of this model is a step of proofs/Localize.tla, for which pairwise disjointness at the end of
+\* the loop is *proved* with TLAPS for arbitrary numbers of atoms and clusters
+HoldersOf(a) == {j \in 1..Len(clusters) : a \in clusters[j].idx}
+LocalizeRefinesProvedStep ==
+  [][(pc = "localize" /\ pc' = "localize") =>
+       \E w \in 1..(Len(clusters) + 1) :
+          /\ (HoldersOf(cur) # {} => w \in HoldersOf(cur))
+          /\ \A j \in 1..Len(clusters) : clusters'[j].idx = (IF j # w THEN clusters[j].idx \ {cur} ELSE clusters[j].idx)]_vars
 \* C13: the matrix used by the shortcut belongs to the cluster's current atoms
 CacheCoherent == Final => \A j \in 1..Len(clusters) : clusters[j].cache = NoCache \/ clusters[j].cache = clusters[j].idx
 \* C02 (pipeline part): if the first region answer covers every atom, exactly one complete cluster comes out
